@@ -4,6 +4,7 @@ import TTGen.C13_LoaderCfg
 import TTProofs.Lemmas.C13_Loader
 import TTProofs.Lemmas.C13_Comments
 import TTProofs.Lemmas.C13_Plates
+import TTProofs.Lemmas.C13_Fuel
 /-!
 # C13 — in a model specification every id denotes exactly one shared object
 
@@ -157,6 +158,13 @@ theorem literal_registered (cfg : Cfg) (hb : cfg.checkBefore = true) (tbl : Clas
                 · simp
         · cases h
     · cases h
+
+/-- **fuel_enough**: the fuel of the model bounds the nesting depth only — with fuel at least the
+depth of the value (what the driver supplies) the loader never answers `fuel`; every theorem above
+therefore speaks about the real outcome of the load -/
+theorem fuel_enough (cfg : Cfg) (tbl : ClassTable) (fuel : Nat) (j : Json ν) (st : St)
+    (h : depth j ≤ fuel) : processObject cfg tbl fuel j st ≠ .error .fuel :=
+  processObject_fuel_enough cfg tbl fuel j h st
 
 /-! ## monotonicity and sharing -/
 
